@@ -8,12 +8,18 @@ spec/Pll.tla <-> core/sync/adjustments/pll.go (through timebase.SystemClock).
   2. TLC generates update histories (exhaustive short ones through the history
      variable, longer random walks with -simulate), each with the expected
      mode / call per update.
-  3. harness/c19 replays them on the real Pll under value embeddings.
+     A history also carries a schedule of external clock steps INSIDE calls of
+     Do ("after the k-th clock access of the j-th update the epoch is bumped
+     and the reading jumps by J"): Do is a sequence of actions in Pll.tla (one
+     per clock access) and the environment's EnvStep fires between any two.
+  3. harness/c19 replays them on the real Pll under value embeddings; its fake
+     clock scripts the external steps per access.
   4. TLC validates the recorded events against spec/trace/PllTrace.tla:
      monitor clauses (the property section) decide VIOLATION, strict clauses
      (equality with Pll!Do) only DRIFT.
 """
 import copy, json, re
+from concurrent.futures import ThreadPoolExecutor
 import vlib
 
 MODE_CLAUSES = {"StepMode", "TrackingOnlySlews", "EpochRestarts"}
@@ -41,6 +47,15 @@ def _sig(clause, r):
     return "C19 %s" % clause
 
 
+def _sig_h(clause, r, hist):
+    """... + for the wait clause, whether an external step landed inside a call of
+    this history before the failing call was made (the interleaving dimension)"""
+    sig = _sig(clause, r)
+    if clause == "StepWait" and any(x["ev"] == "upd" and x["ks"] for x in hist):
+        sig += " after-step-inside-call"
+    return sig
+
+
 def _chunks(recs, size):
     """split at reset events"""
     cur = []
@@ -54,11 +69,13 @@ def _chunks(recs, size):
 
 
 def _run_trace(ctx, cfg, part, name):
-    """one TLC pass over the events; returns the failing (event, clause) pairs
+    """one TLC pass over the events (in a private copy of the specification
+    directory: several run at once); returns the failing (event, clause) pairs
     of the monitor and of the strict clauses (None when the cfg does not ask)"""
     pp = ctx.path(name)
     vlib.write_ndjson(pp, part)
-    r = ctx.tlc("PllTrace", cfg, workers=1, timeout=900, files={"trace.ndjson": pp}, tag="trace:" + cfg, heap="4g")
+    r = ctx.tlc("PllTrace", cfg, workers=1, timeout=900, files={"trace.ndjson": pp}, tag="trace:" + cfg, heap="2g",
+                specdir=ctx.private_specdir())
     res = []
     for bad, done in (("MBAD", "MDONE"), ("SBAD", "SDONE")):
         total = vlib.Ctx.emitted(r["out"], marker=done)
@@ -78,108 +95,237 @@ def _run_trace(ctx, cfg, part, name):
 
 
 def _act(k, **kw):
-    a = dict(k=k, x=0, x_eq=False, p=0, p_small=False, slew_within_bound=False, d=0, d_whole=False, d_pos=False, ffin=True)
+    a = dict(ai=3, k=k, x=0, x_eq=False, p=0, p_small=False, slew_within_bound=False, d=0, d_whole=False, d_pos=False, ffin=True)
     a.update(kw)
     return a
+
+
+def _u(h, i, adv, off, w, now, cep, cep2, mode, acts, q, ks=(), rnow=None):
+    """a hand-written update record; ks: external steps inside the call as (k, j)"""
+    ks = [dict(k=k, j=j) for k, j in ks]
+    end = now + sum(x["j"] for x in ks)
+    return dict(ev="upd", h=h, i=i, c0=0, adv=adv, sat=False, bump=False, off=off, w=w, now_t=now, now_e=0, end_t=end,
+                nnow=1, rnow_t=now if rnow is None else rnow, rnow_e=0, st=ks, ks=ks, na=len(q) + 1 + len(acts), q=q,
+                gc="none", cep=cep, cep2=cep2, nlog=1, mode=mode, acts=acts, panic=False, acc="", emb="synthetic",
+                offc="+large" if off else "0", wc="3..50", advc="-", exp_ok=True)
+
+
+def _reset(h):
+    return dict(ev="reset", h=h, i=0, c0=0, adv=0, sat=False, bump=False, off=0, w=0, now_t=0, now_e=0, end_t=0, nnow=0,
+                rnow_t=0, rnow_e=0, st=[], ks=[], na=0, q=[], cep=0, cep2=0, nlog=0, mode=0, acts=[], panic=False, acc="",
+                emb="synthetic", offc="", wc="", advc="", exp_ok=True)
 
 
 def _synthetic(h):
     """a hand-written history that satisfies every clause: start-up, step of
     +large after 2 s + 1 ms, restart, 2 s and 6 s waits, one saturated slew"""
-    def u(i, adv, off, w, now, cep, cep2, mode, acts):
-        return dict(ev="upd", h=h, i=i, c0=0, adv=adv, sat=False, bump=False, off=off, w=w, now_t=now, now_e=0, gc="none",
-                    cep=cep, cep2=cep2, nlog=1, mode=mode, acts=acts, panic=False, emb="synthetic",
-                    offc="+large" if off else "0", wc="3..50", advc="-", exp_ok=True)
     return [
-        dict(ev="reset", h=h, i=0, c0=0, adv=0, sat=False, bump=False, off=0, w=0, now_t=0, now_e=0, cep=0, cep2=0,
-             nlog=0, mode=0, acts=[], panic=False, emb="synthetic", offc="", wc="", advc="", exp_ok=True),
-        u(1, 0, 10, 4, 0, 0, 0, 1, []),
-        u(2, 2001, 10, 4, 2001, 0, 1, 2, [_act("step", x=10, x_eq=True)]),
-        u(3, 0, 10, 4, 2001, 1, 1, 1, []),
-        u(4, 2001, 0, 4, 4002, 1, 1, 2, []),
-        u(5, 6001, 0, 4, 10003, 1, 1, 3, []),
-        dict(u(6, 1000, 10, 4, 11003, 1, 1, 3, []), gc="lo", acts=[_act("adjust", p=500000, p_small=True, slew_within_bound=True, d=1, d_whole=True, d_pos=True)]),
+        _reset(h),
+        _u(h, 1, 0, 10, 4, 0, 0, 0, 1, [], [0]),
+        _u(h, 2, 2001, 10, 4, 2001, 0, 1, 2, [_act("step", x=10, x_eq=True)], [0]),
+        _u(h, 3, 0, 10, 4, 2001, 1, 1, 1, [], [1, 1]),
+        _u(h, 4, 2001, 0, 4, 4002, 1, 1, 2, [], [1]),
+        _u(h, 5, 6001, 0, 4, 10003, 1, 1, 3, [], [1]),
+        dict(_u(h, 6, 1000, 10, 4, 11003, 1, 1, 3,
+                [_act("adjust", p=500000, p_small=True, slew_within_bound=True, d=1, d_whole=True, d_pos=True)], [1]), gc="lo"),
     ]
 
 
+def _synthetic_incall(h):
+    """hand-written histories with external steps inside calls, as pll.go
+    behaves; every clause holds.
+      1: the step (+2.001 s) lands after the first access (Epoch) of update 1,
+         before its Now: t0 is a reading of the new epoch; update 2 observes the
+         change; update 3 steps 2.501 s into the new epoch.
+      4-5: the unavoidable window: the step lands between Epoch() and Now() of
+         the update that decides (update 5, 0.5 s after the start of the old epoch
+         as the Pll read it, 2.501 s on the reading it gets): it steps in a clock
+         epoch that is 0 s old - in the epoch of its own call the wait is over
+         (the one update with two readings of "current epoch")."""
+    return [
+        _reset(h),
+        _u(h, 1, 0, 10, 4, 0, 0, 1, 1, [], [0], ks=[(1, 2001)], rnow=2001),
+        _u(h, 2, 500, 10, 4, 2501, 1, 1, 1, [], [1, 1]),
+        _u(h, 3, 2001, 10, 4, 4502, 1, 2, 2, [_act("step", x=10, x_eq=True)], [1]),
+        _reset(h + 1),
+        _u(h + 1, 1, 0, 10, 4, 0, 0, 0, 1, [], [0]),
+        _u(h + 1, 2, 500, 10, 4, 500, 0, 2, 2, [_act("step", x=10, x_eq=True)], [0], ks=[(1, 2001)], rnow=2501),
+        _u(h + 1, 3, 0, 10, 4, 2501, 2, 2, 1, [], [2, 2]),
+    ]
+
+
+def _early_after_incall(hst):
+    """the same schedule as history 1 of _synthetic_incall, but the update inside
+    which the step landed took its reading BEFORE the step and attributed it to
+    the new epoch (it read Epoch() afterwards); update 2, undisturbed, then
+    steps 0.5 s into the current clock epoch"""
+    hst[1].update(q=[1, 1], rnow_t=0, na=3)
+    hst[2].update(q=[1], na=3, cep2=2, mode=2, acts=[_act("step", x=10, x_eq=True)])
+    del hst[3:]
+
+
 def _selftest(ctx):
-    """corrupted-field controls: the monitor must accept a hand-written correct
-    history and reject each copy of it in which one recorded field was
-    falsified (a binding that cannot fail proves nothing)"""
+    """corrupted-field controls: the monitor must accept the hand-written correct
+    histories and reject each copy in which recorded fields were falsified (a
+    binding that cannot fail proves nothing)"""
     falsify = [
         ("PositiveDuration", 6, lambda r: r["acts"][0].update(d_pos=False, d=0)),
         ("StepAmount", 2, lambda r: r["acts"][0].update(x=-10)),
         ("SlewBound", 6, lambda r: r["acts"][0].update(p=500001)),
-        ("StepWait", 2, lambda r: r.update(adv=2000, now_t=2000)),
+        ("StepWait", 2, lambda r: r.update(adv=2000, now_t=2000, rnow_t=2000, end_t=2000)),
         ("StepWeight", 2, lambda r: r.update(w=3)),
         ("FiniteFrequency", 6, lambda r: r["acts"][0].update(ffin=False)),
         ("EpochRestarts", 3, lambda r: r.update(acts=[_act("adjust", p=0, p_small=True, slew_within_bound=True, d=1, d_whole=True, d_pos=True)])),
         ("TrackingOnlySlews", 6, lambda r: r.update(acts=[_act("step", x=10, x_eq=True)], cep2=2)),
     ]
-    trace = _synthetic(1)
+    trace = _synthetic(1) + _synthetic_incall(2)
+    ngood = len(trace)
     want = set()
     for k, (clause, i, f) in enumerate(falsify):
-        hst = _synthetic(k + 2)
+        hst = _synthetic(k + 4)
         f(hst[i])
         want.add((len(trace) + i + 1, clause))
         trace += hst
+    # the interleaving dimension: a premature step by a later, undisturbed update
+    hst = _synthetic_incall(len(falsify) + 4)
+    _early_after_incall(hst)
+    want.add((len(trace) + 3, "StepWait"))
+    trace += hst
     bad, _ = _run_trace(ctx, "PllTrace_mon.cfg", trace, "selftest.ndjson")
     got = set(bad)
-    if any(l <= 7 for l, _ in got):
-        raise vlib.Inconclusive("self-test: monitor rejects the correct hand-written history: %s" % sorted(got)[:5])
+    if any(l <= ngood for l, _ in got):
+        raise vlib.Inconclusive("self-test: monitor rejects the correct hand-written histories: %s" % sorted(got)[:5])
     if not want <= got:
         raise vlib.Inconclusive("self-test: monitor did not reject falsified fields: %s" % sorted(want - got))
-    return len(falsify)
+    return len(falsify) + 1
+
+
+def _sched_stats(cases):
+    """vacuity guard on the SPEC side: how the generated histories exercise the
+    interleaving dimension (external steps inside calls)"""
+    st = dict(histories=0, steps=0, by_place={}, by_jump={}, actuation_in_disturbed_update=0,
+              step_call_after_disturbed_update=0, adjust_after_disturbed_update=0, two_in_one_call=0)
+    for c in cases:
+        seen = False
+        for u in c["u"]:
+            if seen and u["k"] == "step":
+                st["step_call_after_disturbed_update"] += 1
+            if seen and u["k"] == "adjust":
+                st["adjust_after_disturbed_update"] += 1
+            if u["st"]:
+                if not seen:
+                    st["histories"] += 1
+                seen = True
+                st["steps"] += len(u["st"])
+                if len(u["st"]) > 1:
+                    st["two_in_one_call"] += 1
+                if u["k"] != "none":
+                    st["actuation_in_disturbed_update"] += 1
+                for e in u["st"]:
+                    st["by_place"]["k=%d" % e["k"]] = st["by_place"].get("k=%d" % e["k"], 0) + 1
+                    st["by_jump"]["j=%d" % e["j"]] = st["by_jump"].get("j=%d" % e["j"], 0) + 1
+    return st
 
 
 def run(ctx):
     q = ctx.quick
-    # ---- 1. design level
-    r = ctx.tlc("PllMC", "Pll_exh.cfg" if q else "Pll_deep.cfg", timeout=300 if q else 1500, workers=8)
-    ctx.log("TLC property section, whole domain: %d distinct / %d generated (%.0fs)"
-            % (r["distinct"], r["generated"], r["wall_s"]))
-    # spec self-test: with the switches of the behaviour before the repairs TLC
-    # must find the two corner cases (a property section that cannot fail proves nothing)
-    for cfg, what in (("Pll_cex1.cfg", "Step(Inv(Inv(MinInt64)))"), ("Pll_cex2.cfg", "Duration(ceil(saturated dt))")):
-        r = ctx.tlc("PllMC", cfg, timeout=300, workers=4, allow_violation=True, tag="selftest:" + cfg)
-        if r["violated"] != "C19Step":
-            raise vlib.Inconclusive("spec self-test: TLC no longer finds the violation through %s (%s)" % (what, r["violated"]))
-    # ---- 2. spec -> code: histories with expectations
-    g = ctx.tlc("PllMC", "Pll_gen.cfg" if q else "Pll_gendeep.cfg", workers=4, timeout=900, tag="gen")
-    exh_cases = ctx.emitted(g["out"])
-    if len(exh_cases) != g["out"].count('<<"CASE"'):
-        raise vlib.Inconclusive("generator output garbled: %d of %d CASE lines parsed" % (len(exh_cases), g["out"].count('<<"CASE"')))
+    # ---- 1. design level and 2. spec -> code generators, side by side
     nsim = 1000 if q else 4000
-    depth = (12 if q else 24) + 1
-    s = ctx.tlc("PllMC", "Pll_sim.cfg" if q else "Pll_simdeep.cfg", workers=1, timeout=900,
-                simulate="num=%d" % nsim, depth=depth, tag="sim")
+    depth = (12 if q else 24) * 7 + 8          # <= 6 actions per update + the external steps inside calls
+    selftests = (("Pll_cex1.cfg", "Step(Inv(Inv(MinInt64)))", "C19Step"),
+                 ("Pll_cex2.cfg", "Duration(ceil(saturated dt))", "C19Step"),
+                 ("Pll_cex3.cfg", "Now() read before Epoch(), external step between the two reads", "C19WaitStep"))
+
+    def t_exh(cfg, workers):
+        return ctx.tlc("PllMC", cfg, timeout=400 if q else 2400, workers=workers, specdir=ctx.private_specdir())
+
+    def t_self():
+        res = []
+        for cfg, what, prop in selftests:
+            res.append(ctx.tlc("PllMC", cfg, timeout=300, workers=2, allow_violation=True, tag="selftest:" + cfg,
+                               specdir=ctx.private_specdir()))
+        return res
+
+    def t_gen(cfg):
+        # one worker: which history represents a VIEW class must not depend on thread scheduling
+        return ctx.tlc("PllMC", cfg, workers=1, timeout=900, tag="gen:" + cfg, specdir=ctx.private_specdir())
+
+    def t_sim():
+        return ctx.tlc("PllMC", "Pll_sim.cfg" if q else "Pll_simdeep.cfg", workers=1, timeout=900,
+                       simulate="num=%d" % nsim, depth=depth, tag="sim", specdir=ctx.private_specdir())
+
+    ctx.specdir()
+    with ThreadPoolExecutor(max_workers=6) as ex:
+        # whole input domain without external steps inside calls / every placement of such steps
+        f_exh = ex.submit(t_exh, "Pll_exh.cfg" if q else "Pll_deep.cfg", 3 if q else 6)
+        f_exi = ex.submit(t_exh, "Pll_exhin.cfg" if q else "Pll_deepin.cfg", 4 if q else 8)
+        f_gen = ex.submit(t_gen, "Pll_gen.cfg" if q else "Pll_gendeep.cfg")
+        f_gin = ex.submit(t_gen, "Pll_genin.cfg" if q else "Pll_genindeep.cfg")
+        f_sim = ex.submit(t_sim)
+        f_self = ex.submit(t_self)
+        r, ri, g, gi, s, selfres = (f_exh.result(), f_exi.result(), f_gen.result(), f_gin.result(), f_sim.result(),
+                                    f_self.result())
+    ctx.log("TLC property section, whole domain: %d distinct / %d generated (%.0fs); every placement of an external step "
+            "inside a call: %d distinct / %d generated (%.0fs)"
+            % (r["distinct"], r["generated"], r["wall_s"], ri["distinct"], ri["generated"], ri["wall_s"]))
+    exh_stats = (ri["distinct"], ri["generated"], ri["wall_s"])
+    # spec self-test: with the switches of the behaviour before the repairs / of the
+    # reversed read order TLC must find the counterexamples (a property section that
+    # cannot fail proves nothing)
+    for (cfg, what, prop), rr in zip(selftests, selfres):
+        if rr["violated"] != prop:
+            raise vlib.Inconclusive("spec self-test: TLC no longer finds the violation through %s (%s)" % (what, rr["violated"]))
+    # ---- 2. spec -> code: histories with expectations
+    exh_cases = ctx.emitted(g["out"])
+    in_cases = ctx.emitted(gi["out"])
+    for gg, cc in ((g, exh_cases), (gi, in_cases)):
+        if len(cc) != gg["out"].count('<<"CASE"'):
+            raise vlib.Inconclusive("generator output garbled: %d of %d CASE lines parsed" % (len(cc), gg["out"].count('<<"CASE"')))
     sim_cases = ctx.emitted(s["out"])
     seen, cases = set(), []
-    for c in exh_cases + sim_cases:
+    for c in exh_cases + in_cases + sim_cases:
         k = json.dumps(c, sort_keys=True)
         if k not in seen:
             seen.add(k)
             cases.append(c)
-    if len(exh_cases) < 100 or len(sim_cases) < nsim // 2:
-        raise vlib.Inconclusive("generators produced only %d exhaustive / %d simulated histories" % (len(exh_cases), len(sim_cases)))
+    if len(exh_cases) < 100 or len(in_cases) < 100 or len(sim_cases) < nsim // 2:
+        raise vlib.Inconclusive("generators produced only %d + %d exhaustive / %d simulated histories"
+                                % (len(exh_cases), len(in_cases), len(sim_cases)))
+    sched = _sched_stats(cases)
+    # vacuity guards (spec side): the interleaving dimension is exercised, at every place,
+    # and calls are made after it that the wait clause has to judge
+    if sched["histories"] < 500 or len(sched["by_place"]) < 3 or sched["step_call_after_disturbed_update"] < 50 \
+            or sched["actuation_in_disturbed_update"] < 50:
+        raise vlib.Inconclusive("generated histories do not exercise external steps inside calls: %s" % json.dumps(sched))
     cp = ctx.path("cases.ndjson")
     vlib.write_ndjson(cp, cases)
-    ctx.log("generated %d distinct histories (%d enumerated, %d simulated)" % (len(cases), len(exh_cases), len(sim_cases)))
+    ctx.log("generated %d distinct histories (%d + %d enumerated, %d simulated); external steps inside calls: %s"
+            % (len(cases), len(exh_cases), len(in_cases), len(sim_cases), json.dumps(sched, sort_keys=True)))
     # ---- 3. real code
     trace, out = ctx.godriver("c19", "TestC19", cases=cp, extra=("-v",))
     recs = vlib.read_ndjson(trace)
     m = re.search(r"C19STATS histories=(\d+) updates=(\d+) mismatches=(\d+)", out)
     nhist, nupd, nmis = (int(x) for x in m.groups()) if m else (0, 0, 0)
-    ctx.log("driver: %d histories, %d updates, %d differ from the attached expectation" % (nhist, nupd, nmis))
+    m = re.search(r"C19SCHED histories=(\d+) scheduled=(\d+) landed=(\d+) between=(\d+) after=(\d+) disturbed_updates=(\d+)", out)
+    drv = dict(zip(("histories", "scheduled", "landed", "between_accesses", "after_last_access", "disturbed_updates"),
+                   (int(x) for x in m.groups()))) if m else {}
+    ctx.log("driver: %d histories, %d updates, %d differ from the attached expectation; external steps: %s"
+            % (nhist, nupd, nmis, json.dumps(drv)))
+    if not drv or drv["landed"] != drv["scheduled"] or drv["between_accesses"] == 0:
+        raise vlib.Inconclusive("the scripted clock did not perform the scheduled external steps: %s" % json.dumps(drv))
     upd = [x for x in recs if x["ev"] == "upd"]
     if any(x["nlog"] != 1 for x in upd) and all(x["nlog"] != 1 for x in upd):
         raise vlib.Inconclusive("the Pll no longer logs one 'PLL iteration' record per update: the mode projection is lost")
     # ---- 4. code -> spec
-    ntests = _selftest(ctx)
     nval, found, counts, dseen = 0, {}, {}, set()
-    for part in _chunks(recs, 60000):
+    parts = list(_chunks(recs, min(50000, max(4000, len(recs) // 6 + 1))))
+    with ThreadPoolExecutor(max_workers=6) as ex:
+        f_st = ex.submit(_selftest, ctx)
+        futs = [ex.submit(_run_trace, ctx, "PllTrace_both.cfg", part, "chunk%d.ndjson" % i) for i, part in enumerate(parts)]
+        ntests = f_st.result()
+        results = [f.result() for f in futs]
+    for part, (bad, sb) in zip(parts, results):
         hist_ids = {x["h"] for x in part}
-        bad, sb = _run_trace(ctx, "PllTrace_both.cfg", part, "chunk.ndjson")
         badh = set()
         for l, clause in bad:
             rec_ = part[l - 1]
@@ -187,7 +333,7 @@ def run(ctx):
             if clause in MODE_CLAUSES and any(x["ev"] == "upd" and x["nlog"] != 1 for x in hist):
                 ctx.notes.append("history %d: %s not judged, a log record is missing" % (rec_["h"], clause))
                 continue
-            sig = _sig(clause, rec_)
+            sig = _sig_h(clause, rec_, hist)
             counts[sig] = counts.get(sig, 0) + 1
             badh.add(rec_["h"])
             if sig not in found:
@@ -195,41 +341,67 @@ def run(ctx):
         nval += len(hist_ids - badh)
         for l, clause in sb:
             rec_ = part[l - 1]
-            key = (clause, rec_["mode"], rec_["offc"] == "min", rec_["advc"] == "sat")
+            key = (clause, rec_["mode"], rec_["offc"] == "min", rec_["advc"] == "sat", bool(rec_["ks"]))
             if key in dseen or len(ctx.drift) >= 20:
                 continue
             dseen.add(key)
-            ctx.drift.append("update differs from Pll!Do as written in Pll.tla (%s): history %d update %d off=%s w=%s adv=%s "
-                             "bump=%s mode_after=%s calls=%s" % (clause, rec_["h"], rec_["i"], rec_["offc"], rec_["wc"],
-                                                                  rec_["advc"], rec_["bump"], rec_["mode"], json.dumps(rec_["acts"])))
+            ctx.drift.append("update differs from Pll!RunCall as written in Pll.tla (%s): history %d update %d off=%s w=%s adv=%s "
+                             "bump=%s steps_inside=%s accesses=%s mode_after=%s calls=%s"
+                             % (clause, rec_["h"], rec_["i"], rec_["offc"], rec_["wc"], rec_["advc"], rec_["bump"],
+                                json.dumps(rec_["ks"]), rec_["acc"], rec_["mode"], json.dumps(rec_["acts"])))
     for sig, (clause, rec_, hist) in sorted(found.items()):
-        ctx.violation(sig, "real Pll.Do breaks %s (%d recorded updates): off=%s w=%s adv=%s mode_after=%s calls=%s"
-                      % (clause, counts[sig], rec_["offc"], rec_["wc"], rec_["advc"], rec_["mode"],
-                         json.dumps(rec_["acts"])), hist)
-    ctx.log("validated %d histories against PllTrace (monitor), %d failing clause signatures, %d drift notes"
-            % (nval, len(found), len(ctx.drift)))
+        ctx.violation(sig, "real Pll.Do breaks %s (%d recorded updates): off=%s w=%s adv=%s steps_inside=%s accesses=%s "
+                      "mode_after=%s calls=%s; external steps inside earlier calls of the history: %s"
+                      % (clause, counts[sig], rec_["offc"], rec_["wc"], rec_["advc"], json.dumps(rec_["ks"]), rec_["acc"],
+                         rec_["mode"], json.dumps(rec_["acts"]),
+                         json.dumps([[x["i"], x["acc"], x["ks"]] for x in hist[:-1] if x["ev"] == "upd" and x["ks"]])), hist)
+    ctx.log("validated %d histories against PllTrace (monitor) in %d shards, %d failing clause signatures, %d drift notes"
+            % (nval, len(parts), len(found), len(ctx.drift)))
     # ---- evidence
-    distinct = len({(json.dumps([[u[k] for k in ("adv", "sat", "bump", "off", "w")] for u in c["u"]]), c["c0"]) for c in cases
+    distinct = len({(json.dumps([[u[k] for k in ("adv", "sat", "bump", "off", "w", "st")] for u in c["u"]]), c["c0"]) for c in cases
                     if any(u["k"] != "none" for u in c["u"])})
     sample = []
     for x in recs:
         if x["h"] in (1, nhist // 2):
             sample.append(x)
+    ctx.notes.append(
+        "interleaving dimension (external clock steps INSIDE calls of Do: epoch + 1 and a forward jump of the reading after the "
+        "k-th clock access - Epoch, Now, Step, Adjust - of an update): Pll.tla explores every placement exhaustively "
+        "(%d distinct states / %d generated, %.0f s); generated histories that exercise it (spec side): %s; replayed by the "
+        "scripted clock: %s" % (exh_stats[0], exh_stats[1], exh_stats[2], json.dumps(sched, sort_keys=True), json.dumps(drv)))
+    ctx.notes.append(
+        "judged on the clock's own timeline (reading at which the clock epoch began), not on what the Pll read. Leniently judged "
+        "placement: only the update INSIDE which a step landed before its Step/Adjust call - it was called in one clock epoch and "
+        "actuates in a later one, 'the current clock epoch' has two readings for it and the wait holds if more than 2 s have "
+        "passed since the start of either (pll.go itself steps there: a step between its Epoch() and Now() reads or between Now() "
+        "and Step() cannot be noticed by the update that decides); the elapsed seconds of a slew count from the earliest "
+        "reading of the previous update. Every later update is judged with the one reading: more than 2 s after the start of "
+        "the clock epoch current when it steps.")
     ctx.cov.update(
         evaluations=len(upd), distinct_nontrivial=distinct,
         rule="update histories generated by TLC from Pll.tla: every history of Pll_gen's classes up to its length reaching a "
-             "distinct abstract state (VIEW), plus -simulate walks over all classes (offset 0/+-0.5ms/+-1ms/+-(1ms+1ns)/+-large/"
+             "distinct abstract state (VIEW), the same with one (thorough: two) external steps inside calls at every place and "
+             "jump 0 / 2 s + 1 ms (Pll_genin), plus -simulate walks over all classes (offset 0/+-0.5ms/+-1ms/+-(1ms+1ns)/+-large/"
              "+-MaxInt64/MinInt64, weight 0(denormal)/-5/2/3/4/49/50/149/150/NaN/+Inf/-Inf, advance 0/0.5s/1s/2s/2s+1/6s/6s+1/300s+1/saturated, external "
-             "epoch bump), each replayed under embeddings of offsets, weights, readings (ms and ns quantum), base time and "
+             "epoch bump between calls, external steps inside calls after access 1..4 with jump 0/0.5s/2s+1/6s+1), each replayed "
+             "under embeddings of offsets, weights, readings (ms and ns quantum), base time and "
              "epoch base; distinct_nontrivial = distinct generated histories containing at least one Step/Adjust; "
              "evaluations = recorded updates",
         traces_validated_against_impl=nval, histories_replayed=nhist, exhaustive=False,
         monitor_selftests=ntests, expectation_mismatches=nmis,
+        histories_with_steps_inside_calls=sched["histories"], steps_inside_calls=sched["steps"],
         samples=sample[:16])
     ctx.assumptions += [
         "the scripted clock increments its epoch on Step exactly like driver/clocks/sysclk_linux.go; readings are non-decreasing",
-        "mode before/after an update is taken from the 'mode' attribute of the Pll's 'PLL iteration' log record",
-        "start of the current clock epoch = reading at which the clock's epoch last changed (creation, external bump, Step)",
+        "the clock is read and actuated only through the timebase.SystemClock handed to NewPLL; between two accesses of one call "
+        "only an external step moves its reading (forward)",
+        "mode before/after an update is taken from the 'mode' attribute of the Pll's 'PLL iteration' log record when it is there, "
+        "otherwise derived from observed actuation",
+        "an epoch change is 'observed through the clock's epoch' by the update one of whose Epoch() reads returns another value "
+        "than the read before it",
+        "start of the current clock epoch = reading at which the clock's epoch last changed (creation, external bump, external "
+        "step inside a call, Step)",
         "the slew's proportional term is symbolic in Pll.tla; finiteness of the frequency is checked on observed values only",
-        "small scope: histories <= 6 updates exhaustively (TLC), <= 12/24 updates by simulation",
+        "small scope: histories <= 6 updates exhaustively (TLC) with <= 1 (thorough: 2) external steps inside calls, "
+        "<= 12/24 updates by simulation with <= 4/8",
     ]
